@@ -26,6 +26,76 @@ SPEC = {
 N = ("param", "n")
 
 
+# ---- the law of `a + b * Z` for a draw Z of a known family (location-scale algebra over polynomial normal forms)
+STD_FAMILIES = {
+    # target: (family, slot names, defaults)
+    "numpy.random.normal": ("normal", ["loc", "scale", "size"], {"loc": ("const", 0), "scale": ("const", 1)}),
+    "numpy.random.standard_normal": ("normal", ["size"], {"loc": ("const", 0), "scale": ("const", 1)}),
+    "numpy.random.randn": ("normal", ["size"], {"loc": ("const", 0), "scale": ("const", 1)}),
+    "numpy.random.uniform": ("uniform", ["low", "high", "size"], {"low": ("const", 0), "high": ("const", 1)}),
+    "numpy.random.random_sample": ("uniform", ["size"], {"low": ("const", 0), "high": ("const", 1)}),
+    "numpy.random.random": ("uniform", ["size"], {"low": ("const", 0), "high": ("const", 1)}),
+    "numpy.random.ranf": ("uniform", ["size"], {"low": ("const", 0), "high": ("const", 1)}),
+    "numpy.random.sample": ("uniform", ["size"], {"low": ("const", 0), "high": ("const", 1)}),
+    "numpy.random.rand": ("uniform", ["size"], {"low": ("const", 0), "high": ("const", 1)}),
+    "numpy.random.laplace": ("laplace", ["loc", "scale", "size"], {"loc": ("const", 0), "scale": ("const", 1)}),
+}
+WANT_FAMILY = {"normal": "normal", "uniform": "uniform", "laplace": "laplace"}
+
+
+def law_of(name, res, c):
+    """-> (True, text) when the closure's result `res` is a + b * Z with Z the single global draw `c`, and its law equals the specified one as polynomials in the
+    factory's parameters; (False, text) when it is of that form and the law differs; None when the result is not of that form (not read)."""
+    from ..pred import poly, padd, pmul, pconst, pkey
+    fam = STD_FAMILIES.get(c.target)
+    if fam is None or fam[0] != WANT_FAMILY[name]:
+        return None
+    family, names, defaults = fam
+    bound, extra = api.bind_slots(names, c.args, c.kwargs)
+    if extra or bound.get("size") != N:
+        return None
+    Z = c.result
+    try:
+        pr = poly(res)
+    except Inconclusive:
+        return None
+    a, b = {}, {}
+    for mono, coef in pr.items():
+        k = sum(1 for x in mono if x == Z)
+        if any(x != Z and any(y == Z for y in walk(x)) for x in mono) or k > 1:
+            return None
+        if k == 1:
+            m2 = tuple(x for x in mono if x != Z)
+            b[m2] = b.get(m2, 0) + coef
+        else:
+            a[mono] = a.get(mono, 0) + coef
+    if not b:
+        return None
+    P_ = lambda t: poly(t)
+    get = lambda slot: bound.get(slot, defaults.get(slot))
+    eq = lambda x, y: pkey(x) == pkey(y)
+    try:
+        if family == "uniform":
+            lo_ = padd(a, pmul(b, P_(get("low"))))
+            hi_ = padd(a, pmul(b, P_(get("high"))))
+            ok = eq(lo_, P_(("param", "lo"))) and eq(hi_, P_(("param", "hi")))
+            return ok, "support [%s, %s)" % (_pf(lo_), _pf(hi_))
+        loc_ = padd(a, pmul(b, P_(get("loc"))))
+        sc_ = pmul(b, P_(get("scale")))
+        if family == "normal":
+            sds = [P_(("binop", "**", ("param", "var"), ("const", 0.5)))]
+            sc_ok = any(eq(sc_, sd) for sd in sds) or eq(pmul(sc_, sc_), P_(("param", "var")))
+            return eq(loc_, P_(("param", "mean"))) and sc_ok, "mean %s, standard deviation %s" % (_pf(loc_), _pf(sc_))
+        return eq(loc_, P_(("param", "mean"))) and eq(sc_, P_(("param", "scale"))), "mean %s, scale %s" % (_pf(loc_), _pf(sc_))
+    except Inconclusive:
+        return None
+
+
+def _pf(p_):
+    from ..pred import pfmt
+    return pfmt(p_)[:60]
+
+
 def is_sd_of(t, var):
     return t in (("binop", "**", var, ("const", 0.5)), ("ext", "numpy.sqrt", (var,), ()), ("ext", "math.sqrt", (var,), ()),
                  ("binop", "**", var, ("binop", "/", ("const", 1), ("const", 2))))
@@ -134,6 +204,19 @@ def run(prog, rep, tier):
             rep.bad_form("R6.global-stream", w, "%s must draw exactly once from numpy's global stream (found %d global draws, %d generator draws)" % (name, len(draws), len(gens)))
             continue
         c = draws[0]
+        if c.target != target or res != c.result:
+            # not the direct call: the result as a location-scale transform of one standard draw of the same family, decided on the law's parameters
+            lw = law_of(name, res, c)
+            if lw is not None:
+                want = {"normal": "mean `mean`, standard deviation var**0.5", "uniform": "support [lo, hi)", "laplace": "mean `mean`, scale `scale`"}[name]
+                if lw[0]:
+                    rep.ok("R6.global-stream", fwhere(f, c.node), "%s draws with %s (global legacy stream)" % (name, c.target))
+                    rep.ok("SLOTS." + name, fwhere(f, c.node), "a + b * Z with %s: %s" % (lw[1], want))
+                    rep.ok("RESULT." + name, fwhere(f, c.node), "the closure returns that transform of the draw")
+                else:
+                    rep.bad("LAW." + name, fwhere(f, c.node), "%s returns a + b * Z with Z ~ %s(size=n), which has %s; specified: %s" % (name, c.target.split(".")[-1], lw[1], want))
+                    rep.ok("R6.global-stream", fwhere(f, c.node), "%s draws with %s (global legacy stream)" % (name, c.target))
+                continue
         rep.check("R6.global-stream", c.target == target, fwhere(f, c.node), "%s draws with %s (global legacy stream)" % (name, target),
                   "%s draws with %s instead of %s" % (name, c.target, target))
         bound, extra = api.bind_slots(api.SLOTS[target], c.args, c.kwargs)
